@@ -98,6 +98,10 @@ func (h *Hist) Enter(group string, sub int, kind string) {
 			if h.occ[i].n > 0 && group != "" {
 				h.Viol = append(h.Viol, &Violation{Property: "C01", Class: "group-overlap", Signature: "",
 					Step: h.Sim.Step(), Detail: fmt.Sprintf("callback %d (%s) of group %q started while callback %d of the same group is executing", sub, kind, group, h.occ[i].sub)})
+				if h.epoch > 0 {
+					h.Viol = append(h.Viol, &Violation{Property: "C03", Class: "guarantee-lost-after-restart", Signature: "group-overlap",
+						Step: h.Sim.Step(), Detail: fmt.Sprintf("epoch %d (after a Shutdown/Serve cycle): callback %d (%s) of group %q started while callback %d of the same group is executing", h.epoch, sub, kind, group, h.occ[i].sub)})
+				}
 			}
 			h.occ[i].n++
 			h.occ[i].sub = sub
